@@ -187,6 +187,14 @@ impl Model {
         (0..self.n() as Oid).filter(|&i| seen[i as usize]).collect()
     }
 
+    /// No stale record anywhere: every recorded adoption is backed by a handle
+    /// the owner still stores (ELIDE histories: once the stale records have
+    /// been purged by the death of their targets or removed by a late unadopt,
+    /// the bookkeeping is exact again and rule A is a sound oracle again).
+    pub fn ledger_clean(&self) -> bool {
+        self.r.iter().all(|(&(o, t), &c)| c == 0 || (self.objs[o as usize].st == St::Alive && c <= self.held(o, t)))
+    }
+
     /// Rule A of DESIGN §3.3: every strong handle to every member of
     /// Closure(x) is a recorded adoption held by a member.
     pub fn rule_a(&self, x: Oid) -> Option<Vec<Oid>> {
